@@ -47,6 +47,11 @@ func verifC18TimedCopy(kinds int) {
 	if len(cm.fromTarget) != 1 {
 		return
 	}
+	// every datagram that fits a UDP packet at all is reported with its real payload size
+	// (the largest UDP payload over IPv4 is 65507 bytes; the relay buffer has room for less)
+	if bodyLen <= 65536-32-19 {
+		verifAssert("C16.timedcopy.reported-with-its-payload-size", cm.fromTarget[0].a == int64(bodyLen))
+	}
 	got := bodyLen
 	if max := serverUDPBufferSize - saltSize - maxAddrLen; got > max {
 		got = max
